@@ -2580,11 +2580,14 @@ where
 {
     match **typ {
         Type::Record(_) => {
+            let mut fields = row_iter(typ);
             type_field_iter(typ).next().is_none()
-                && row_iter(typ).enumerate().all(|(i, field)| {
+                && fields.by_ref().enumerate().all(|(i, field)| {
                     let name = field.name.as_ref();
                     name.starts_with('_') && name[1..].parse() == Ok(i)
                 })
+                // There is no tuple syntax for a record with a polymorphic tail (`{ | r }`)
+                && matches!(**fields.current_type(), Type::EmptyRow)
         }
         _ => false,
     }
@@ -2670,6 +2673,7 @@ where
             },
             Type::Variant(ref row) => {
                 let mut first = true;
+                let mut only_rest = false;
 
                 let mut doc = arena.nil();
                 let mut row = row;
@@ -2718,6 +2722,9 @@ where
                             rest
                         }
                         _ => {
+                            // A variant which only consists of a polymorphic tail must always be
+                            // written in parentheses, `(.. r)`
+                            only_rest = first;
                             doc = chain![
                                 arena,
                                 doc,
@@ -2730,7 +2737,11 @@ where
                     };
                 }
 
-                p.enclose(Prec::Constructor, arena, doc).group()
+                if only_rest && p != Prec::Top {
+                    chain![arena, "(", doc, ")"].group()
+                } else {
+                    p.enclose(Prec::Constructor, arena, doc).group()
+                }
             }
 
             Type::Effect(ref row) => Self::pretty_record_like(
